@@ -8,6 +8,7 @@ package hdkeychain
 //@ func paddedAppend
 //@   props C14 C19
 //@   requires disjoint(dst, src) && size <= 1024 && len(dst) <= 4096 && len(src) <= 4096
+//@   modifies dst
 //@   ensures mathint(size) >= len(src) ==> len(result) == len(dst) + mathint(size)
 //@   ensures mathint(size) < len(src) ==> len(result) == len(dst) + len(src)
 //@   ensures bytesEq(result, 0, old(dst), 0, len(dst))
